@@ -1,6 +1,6 @@
 (* Property C04 - nodes that have seen the same blocks agree on the heaviest chain.
-   Statements only; proofs in Proofs/ForkChoice.v. *)
-From Virel Require Import Lib.Config Lib.U64 Lib.AMap Model.Ledger Model.Node Proofs.NodeBasics Proofs.ForkChoice Proofs.Agreement Gen.Params.
+   Statements only; proofs in Proofs/ForkChoice.v, Proofs/Agreement.v, Proofs/BranchRefuted.v. *)
+From Virel Require Import Lib.Config Lib.U64 Lib.AMap Model.Ledger Model.Node Proofs.NodeBasics Proofs.ForkChoice Proofs.Agreement Proofs.BranchRefuted Gen.Params.
 Open Scope N_scope.
 
 (* For every configuration, every genesis, and EVERY sequence of deliveries (any blocks - valid, invalid, forked,
@@ -49,3 +49,62 @@ Theorem C04_rejected_unchanged : forall cfg genesis_addr team_key n b now n' c a
   deliver cfg genesis_addr team_key n b now = (n', Rejected c, amb) -> n' = n.
 Proof. exact deliver_rejected_unchanged. Qed.
 Print Assumptions C04_rejected_unchanged.
+
+(* THE CLAUSE "a block that is valid on its own branch is never refused because of the state of the branch the node
+   currently follows" IS FALSE OF THE CODE (open finding R14), and its refutation is a theorem of the model.
+   checkBlock judges the stake signature of every delivered block - also of one that extends a side branch - against the
+   ledger of the chain the node follows at that moment (staked total, delegate table).  The history of
+   Proofs/BranchRefuted.v (verification configuration; hashes in brackets):
+
+        G(1) - A1(2) - A2(3) - A3(13) - A4(14) - A5(15) - A6(16) - A7(17)      r_trunk ++ r_main, weight 19
+                           \
+                            S3(23) - S4(24) - S5(25) - S6(26) - S7(27)          r_branch, then r_staked = S7 (weight 21)
+
+   S3 registers pool 2 by key 3, makes it the delegate of key 3's account and stakes one coin; S4, S5, S6 name pool 2
+   as next delegate (the lottery of the branch has no other pool); S7 = r_staked, three blocks above S4, names delegate 2
+   and carries the signature of key 3 over S4's hash.  The node that follows the branch accepts S7 as its tip.  The node
+   that follows the main chain has accepted and stored S3 .. S6, yet refuses S7 with code 717 ("nothing is staked" - on
+   ITS chain) and stays as it was, although the branch with S7 outweighs its main chain: it can never adopt that branch.
+   (Reading check_block: 717 when nothing is staked on the followed chain, as here; 718 when something is staked there
+   but the delegate is not registered there; 719 when the delegate registered there has another owner.)
+   NOT REPAIRED: at validation time only the ledger of the followed chain exists; judging a side-branch block needs the
+   state of its own branch (replaying the branch from the fork point) or deferring the stake check to the
+   reorganisation - a change of the validation design, not a local patch. *)
+Theorem C04_branch_validity_refuted :
+  node0 cfg_verifnet 7 r_genesis = Ok r_node0 /\ b_cd r_genesis = b_diff r_genesis /\
+  (* the node on the branch: every block accepted, main chain ends at the parent of S7, the pool has its stake;
+     S7 is accepted and becomes the tip *)
+  r_node_branch = run cfg_verifnet 7 0 r_node0 (r_at (r_trunk ++ r_branch)) /\
+  r_outcomes r_node0 (r_at (r_trunk ++ r_branch)) = [Accepted; Accepted; Accepted; Accepted; Accepted; Accepted] /\
+  top r_node_branch = prev_hash r_staked /\
+  staked (ldg r_node_branch) = 1000000000 /\
+  get_dlg (ldg r_node_branch) 2 = Some (mkdlg 2 3 50 [mkfund 7 1000000000 5]) /\
+  deliver cfg_verifnet 7 0 r_node_branch r_staked r_now = (r_node_branch', Accepted, false) /\
+  top r_node_branch' = b_hash r_staked /\
+  (* the node on the main chain: every block accepted - those of the branch too, they are stored -, main chain ends at A7;
+     S7, whose parent it stores and with which the branch would outweigh its main chain, is refused: nothing is staked
+     on the chain it follows *)
+  r_node_main = run cfg_verifnet 7 0 r_node0 (r_at (r_trunk ++ r_main ++ r_branch)) /\
+  r_outcomes r_node0 (r_at (r_trunk ++ r_main ++ r_branch)) =
+    [Accepted; Accepted; Accepted; Accepted; Accepted; Accepted; Accepted; Accepted; Accepted; Accepted; Accepted] /\
+  top r_node_main = 17 /\ top_cd r_node_main = 19 /\
+  (exists p, get_block r_node_main (prev_hash r_staked) = Some p /\ nth_error r_branch 3 = Some p) /\
+  (forall b, In b r_branch -> get_block r_node_main (b_hash b) = Some b) /\
+  top_cd r_node_main < b_cd r_staked /\
+  staked (ldg r_node_main) = 0 /\
+  deliver cfg_verifnet 7 0 r_node_main r_staked r_now = (r_node_main, Rejected 717, false).
+Proof. exact branch_validity_refuted. Qed.
+Print Assumptions C04_branch_validity_refuted.
+
+(* the clause as a statement about all histories of all configurations, negated: "whenever a node whose main chain ends at
+   the parent of b accepts b, every node (of the same genesis) that stores the parent and not yet b accepts b" *)
+Theorem C04_branch_validity_clause_false :
+  ~ (forall cfg genesis_addr team_key g n0 ops_n ops_m b now,
+       node0 cfg genesis_addr g = Ok n0 -> b_cd g = b_diff g ->
+       let n := run cfg genesis_addr team_key n0 ops_n in
+       let m := run cfg genesis_addr team_key n0 ops_m in
+       top m = prev_hash b -> snd (fst (deliver cfg genesis_addr team_key m b now)) = Accepted ->
+       get_block n (prev_hash b) <> None -> get_block n (b_hash b) = None ->
+       snd (fst (deliver cfg genesis_addr team_key n b now)) = Accepted).
+Proof. exact branch_validity_clause_false. Qed.
+Print Assumptions C04_branch_validity_clause_false.
